@@ -9,68 +9,77 @@ use crate::{
     core::{Engine, Outcome, RunCtx},
 };
 
-pub mod plain {
-    use emit::platform::thread_local_ctxt::ThreadLocalCtxt;
+/// One instantiation of the interpreter per (runtime kind, way the context is held). The erased
+/// variants hold the context as `Arc<dyn ErasedCtxt + Send + Sync>`: every call then goes through
+/// the forwarding impls and the erased dispatch that `emit::setup().init()` runtimes use.
+macro_rules! span_mod {
+    ($name:ident, $tp:expr, $ctxt_ty:ty, $mk:expr, $label:expr) => {
+        pub mod $name {
+            #[allow(unused_imports)]
+            use emit::platform::thread_local_ctxt::ThreadLocalCtxt;
+            #[allow(unused_imports)]
+            use emit_traceparent::{TraceparentCtxt, TraceparentFilter};
 
-    pub type TheCtxt = ThreadLocalCtxt;
-    pub const TP: bool = false;
+            pub type TheCtxt = $ctxt_ty;
+            pub const TP: bool = $tp;
+            pub const CTXT_LABEL: &str = $label;
 
-    pub fn mk_ctxt() -> TheCtxt {
-        ThreadLocalCtxt::new()
-    }
-
-    fn make_filter(_log: &Shared, _in_sampled: bool, _no_sampler: bool) -> TheFilter {
-        Box::new(emit::filter::from_fn(|evt| {
-            use emit::Props as _;
-            if evt.props().pull::<emit::Kind, _>("evt_kind") == Some(emit::Kind::Span) {
-                NEXT_SAMPLE.with(|c| c.get())
-            } else {
-                true
+            pub fn mk_ctxt() -> TheCtxt {
+                $mk
             }
-        }))
-    }
 
-    include!("span_interp.inc.rs");
+            fn make_filter(log: &Shared, in_sampled: bool, no_sampler: bool) -> TheFilter {
+                use emit::Filter as _;
+                if !TP {
+                    return Box::new(emit::filter::from_fn(|evt| {
+                        use emit::Props as _;
+                        if evt.props().pull::<emit::Kind, _>("evt_kind") == Some(emit::Kind::Span) {
+                            NEXT_SAMPLE.with(|c| c.get())
+                        } else {
+                            true
+                        }
+                    }));
+                }
+                if no_sampler {
+                    return if in_sampled {
+                        Box::new(TraceparentFilter::new().and_when(emit_traceparent::in_sampled_trace_filter(true)))
+                    } else {
+                        Box::new(TraceparentFilter::new())
+                    };
+                }
+                let log = log.clone();
+                let sampler = TraceparentFilter::new_with_sampler(move |_: &emit::SpanCtxt| {
+                    let decision = NEXT_SAMPLE.with(|c| c.get());
+                    lg(&log).items.push(Item::Sampler {
+                        strand: cur_strand(),
+                        decision,
+                    });
+                    decision
+                });
+                if in_sampled {
+                    Box::new(sampler.and_when(emit_traceparent::in_sampled_trace_filter(true)))
+                } else {
+                    Box::new(sampler)
+                }
+            }
+
+            include!("span_interp.inc.rs");
+        }
+    };
 }
 
-pub mod tp {
-    use emit::platform::thread_local_ctxt::ThreadLocalCtxt;
-    use emit_traceparent::{TraceparentCtxt, TraceparentFilter};
+type ErasedArc = std::sync::Arc<dyn emit::ctxt::ErasedCtxt + Send + Sync>;
 
-    pub type TheCtxt = TraceparentCtxt<ThreadLocalCtxt>;
-    pub const TP: bool = true;
-
-    pub fn mk_ctxt() -> TheCtxt {
-        TraceparentCtxt::new(ThreadLocalCtxt::new())
-    }
-
-    fn make_filter(log: &Shared, in_sampled: bool, no_sampler: bool) -> TheFilter {
-        use emit::Filter as _;
-        if no_sampler {
-            return if in_sampled {
-                Box::new(TraceparentFilter::new().and_when(emit_traceparent::in_sampled_trace_filter(true)))
-            } else {
-                Box::new(TraceparentFilter::new())
-            };
-        }
-        let log = log.clone();
-        let sampler = TraceparentFilter::new_with_sampler(move |_: &emit::SpanCtxt| {
-            let decision = NEXT_SAMPLE.with(|c| c.get());
-            lg(&log).items.push(Item::Sampler {
-                strand: cur_strand(),
-                decision,
-            });
-            decision
-        });
-        if in_sampled {
-            Box::new(sampler.and_when(emit_traceparent::in_sampled_trace_filter(true)))
-        } else {
-            Box::new(sampler)
-        }
-    }
-
-    include!("span_interp.inc.rs");
-}
+span_mod!(plain, false, ThreadLocalCtxt, ThreadLocalCtxt::new(), "concrete");
+span_mod!(tp, true, TraceparentCtxt<ThreadLocalCtxt>, TraceparentCtxt::new(ThreadLocalCtxt::new()), "concrete");
+span_mod!(plain_erased, false, super::ErasedArc, std::sync::Arc::new(ThreadLocalCtxt::new()), "erased (Arc<dyn ErasedCtxt + Send + Sync>)");
+span_mod!(
+    tp_erased,
+    true,
+    super::ErasedArc,
+    std::sync::Arc::new(TraceparentCtxt::new(ThreadLocalCtxt::new())),
+    "erased (Arc<dyn ErasedCtxt + Send + Sync>)"
+);
 
 pub struct CtxSpans {
     /// "C04", "C05" or "C18"
@@ -88,7 +97,7 @@ impl Engine for CtxSpans {
 
     fn real_vs_stub(&self) -> Json {
         json!({
-            "real": ["#[emit::span] on sync / async / Result / guard-parameter functions", "emit::new_span!", "SpanGuard::{new, start, with_*, map_props, complete, complete_with, drop}", "default completion (panic detection, levels)", "SpanCtxt", "Frame / FrameFuture / ThreadLocalCtxt", "emit_traceparent::{TraceparentCtxt, TraceparentFilter, in_sampled_trace_filter, Traceparent::{push,current,to_string,try_from_str}} (C18)", "real thread-locals on real OS threads, real unwinding"],
+            "real": ["#[emit::span] on sync / async / Result / guard-parameter functions", "emit::new_span!", "SpanGuard::{new, start, with_*, map_props, complete, complete_with, drop}", "default completion (panic detection, levels)", "SpanCtxt", "Frame / FrameFuture / ThreadLocalCtxt, held concretely or as Arc<dyn ErasedCtxt + Send + Sync> (the erased dispatch and forwarding impls ambient runtimes use)", "emit_traceparent::{TraceparentCtxt, TraceparentFilter, in_sampled_trace_filter, Traceparent::{push,current,to_string,try_from_str}} (C18)", "real thread-locals on real OS threads, real unwinding"],
             "simulated": ["executor (seeded polls on lane threads)", "clock (scripted: forward, equal, backwards, unavailable)", "rng (counter, never repeats)", "emitter (recorder)", "filter decisions / sampler (scripted per span)"],
             "not_exercised": ["tokio or any production executor"]
         })
@@ -107,10 +116,15 @@ impl Engine for CtxSpans {
     }
 
     fn run(&self, ch: &mut Choices, ctx: &RunCtx) -> Outcome {
-        match self.focus {
-            "C18" => tp::run(ch, ctx, "C18"),
-            "C05" => plain::run(ch, ctx, "C05"),
-            _ => plain::run(ch, ctx, "C04"),
+        // a third of the runs hold the context type-erased, the way `emit::setup().init()` runtimes do
+        let erased = ch.chance(1, 3);
+        match (self.focus, erased) {
+            ("C18", false) => tp::run(ch, ctx, "C18"),
+            ("C18", true) => tp_erased::run(ch, ctx, "C18"),
+            ("C05", false) => plain::run(ch, ctx, "C05"),
+            ("C05", true) => plain_erased::run(ch, ctx, "C05"),
+            (_, false) => plain::run(ch, ctx, "C04"),
+            (_, true) => plain_erased::run(ch, ctx, "C04"),
         }
     }
 }
